@@ -98,7 +98,7 @@ fn cut_programs(rng: &mut Rng) -> (Vec<Clause>, Vec<QuerySpec>) {
         args: vec![Term::var("$X")],
         body: Some(GoalSpec::And(vec![GoalSpec::Cut, GoalSpec::Call("v".into(), vec![Term::var("$X")])])),
     });
-    let q = |f: &str, n: usize| QuerySpec { functor: f.into(), args: (0..n).map(|k| Term::Var(format!("$P{}", k))).collect(), class: QueryClass::Finite };
+    let q = |f: &str, n: usize| QuerySpec { functor: f.into(), args: (0..n).map(|k| Term::Var(format!("$P{}", k))).collect(), class: QueryClass::Finite, via_text: false };
     let mut queries = vec![q("c1", 1), q("c2", 1), q("c3", 2), q("c4", 0), q("c5", 1), q("first", 1)];
     rng.shuffle(&mut queries);
     queries.truncate(rng.range(2, 4) as usize);
